@@ -402,16 +402,26 @@ def steps(ctx, d5):
                             ('solve_T_at_SP', 'self.S(phase, mol, T, P)', 'iter_T_at_SP'), ('xsolve_T_at_SP', 'self.xS(phase_mol, T, P)', 'xiter_T_at_SP')):
         f = prog.method('Mixture', name, rel=MX)
         tgt = f.params[3] if not name.startswith('x') else f.params[2]
-        lam = [n for n in ast.walk(f.node) if isinstance(n, ast.Lambda)]
-        okk = len(lam) == 1 and Lin().form(lam[0].body) == Form.atom(model) - Form.atom(tgt)
+        # the residual callable: a lambda, or a local one-line function handed to the root solver by name
+        lam = [n.body for n in ast.walk(f.node) if isinstance(n, ast.Lambda)]
+        for n in ast.walk(f.node):
+            if isinstance(n, ast.FunctionDef) and n is not f.node:
+                body = [b for b in n.body if not (isinstance(b, ast.Expr) and isinstance(b.value, ast.Constant))]
+                used = any(isinstance(x, ast.Call) and any(isinstance(a, ast.Name) and a.id == n.name for a in list(x.args) + [k.value for k in x.keywords])
+                           for x in ast.walk(f.node))
+                if len(body) == 1 and isinstance(body[0], ast.Return) and body[0].value is not None and used:
+                    lam.append(body[0].value)
+        okk = len(lam) == 1 and Lin().form(lam[0]) == Form.atom(model) - Form.atom(tgt)
         its = [n for n in ast.walk(f.node) if isinstance(n, ast.Name) and n.id == it]
         if okk and its:
             d5.ok('Mixture.' + name, 'fixed-point on %s, secant residual %s - %s' % (it, model, tgt), f)
         else:
             d5.fail('Mixture.' + name, 'residual', 'secant residual is not model(T) - target (or the wrong iteration function is used)', f, f.node)
         # args tuple: (target, model, ..., Cn model, cache)
+        argnames = {a.id for x in ast.walk(f.node) if isinstance(x, ast.Call) and any(isinstance(y, ast.Name) and y.id == it for y in x.args)
+                    for a in list(x.args) + [z.value for z in x.args if isinstance(z, ast.Starred)] if isinstance(a, ast.Name)}
         for n in walk_no_nested(f.node):
-            if isinstance(n, ast.Assign) and src(n.targets[0]) == 'args' and isinstance(n.value, ast.Tuple):
+            if isinstance(n, ast.Assign) and isinstance(n.targets[0], ast.Name) and n.targets[0].id in argnames and isinstance(n.value, ast.Tuple):
                 el = [src(e) for e in n.value.elts]
                 mname = model.split('(')[0]
                 if el[0] == tgt and el[1] == mname:
